@@ -121,6 +121,7 @@ class Engine:
         self._callee_cache = {}
         self.max_paths = 20000
         self.opaque_fns = {}       # def-name -> python callable(engine, args) replacing MIR body
+        self.model_cache = []
 
     # ------------------------------------------------------------------
     # exploration
@@ -132,7 +133,8 @@ class Engine:
             if f is None:
                 raise Unsupported('no MIR body for %s' % fn)
             fn = f
-        outer = (self.run, self.solver, self.solver_axioms, self.frames)
+        outer = (self.run, self.solver, self.solver_axioms, self.frames, self.model_cache)
+        self.model_cache = []
         self.solver = z3.Solver()
         self.solver.set('timeout', self.uni.timeout_ms)
         self.solver_axioms = 0
@@ -162,7 +164,7 @@ class Engine:
                 if len(results) > (max_paths or self.max_paths):
                     raise BoundExceeded('more than %d paths in %s' % (max_paths or self.max_paths, fn.name))
         finally:
-            self.run, self.solver, self.solver_axioms, self.frames = outer
+            self.run, self.solver, self.solver_axioms, self.frames, self.model_cache = outer
         return results
 
     def _sync_axioms(self):
@@ -187,11 +189,24 @@ class Engine:
         # axioms created since the path started
         ax = self.uni.axioms
         extra = ax[self.solver_axioms:]
+        # counterexample cache: a model of an earlier query that also satisfies pc /\ c
+        if self.model_cache:
+            full = z3.And(c, *self.run.pc, *extra) if (self.run.pc or extra) else c
+            for m in self.model_cache:
+                try:
+                    if z3.is_true(m.eval(full, model_completion=True)):
+                        self.uni.stats['model_cache_hits'] = self.uni.stats.get('model_cache_hits', 0) + 1
+                        return True
+                except z3.Z3Exception:
+                    pass
         t = time.time()
         r = self.solver.check(c, *extra) if extra else self.solver.check(c)
         self.uni.stats['z3_checks'] += 1
         self.uni.stats['z3_time'] += time.time() - t
         if r == z3.sat:
+            self.model_cache.append(self.solver.model())
+            if len(self.model_cache) > 6:
+                self.model_cache.pop(0)
             return True
         if r == z3.unsat:
             return False
@@ -817,6 +832,9 @@ class Engine:
         if isinstance(v, bool):
             v = mk_int(int(v), 'u8')
         if isinstance(v, z3.BoolRef):
+            m = self.try_diamond(fr, v, cases, otherwise)
+            if m is not None:
+                return m
             t = self.branch(v)
             v = mk_int(int(t), 'u8')
         if isinstance(v, BV):
@@ -845,6 +863,38 @@ class Engine:
                 return cases[k][1]
             return otherwise
         raise Unsupported('switchInt on %r' % (v,))
+
+    def try_diamond(self, fr, cond, cases, otherwise):
+        """if-conversion: `if c {x = K1} else {x = K2}` with constant K's joins
+        without forking (and without a feasibility query)"""
+        if len(cases) != 1 or cases[0][0] != 0 or otherwise is None:
+            return None
+        bf, bt = fr.fn.blocks[cases[0][1]], fr.fn.blocks[otherwise]
+        if len(bf['stmts']) != 1 or len(bt['stmts']) != 1:
+            return None
+        sf, st = bf['stmts'][0], bt['stmts'][0]
+        if sf[0] != 'assign' or st[0] != 'assign' or sf[1] != st[1] or sf[1][1]:
+            return None
+        if bf['term'][0] != 'goto' or bt['term'][0] != 'goto' or bf['term'][1] != bt['term'][1]:
+            return None
+
+        def const_rv(rv):
+            if rv[0] == 'use' and rv[1][0] == 'const':
+                return True
+            return rv[0] == 'agg' and rv[1] == 'adt' and not rv[3]
+        if not (const_rv(sf[2]) and const_rv(st[2])):
+            return None
+        vf = self.eval_rvalue(fr, sf[2])
+        vt = self.eval_rvalue(fr, st[2])
+        try:
+            merged = merge_values([(cond, vt), (z3.Not(cond), vf)])
+        except Unsupported:
+            return None
+        self.write_place(fr, sf[1], merged)
+        self.run.blocks.add((fr.fn.name, cases[0][1]))
+        self.run.blocks.add((fr.fn.name, otherwise))
+        self.uni.stats['diamonds'] = self.uni.stats.get('diamonds', 0) + 1
+        return bf['term'][1]
 
     def do_call(self, fr, term):
         callee = term[2]
